@@ -2,7 +2,7 @@
 From Coq Require Import ZArith.
 From Coq Require Import List.
 From Lace Require Import Word Machine Isa Asm AsmProofs AsmWf.
-From Lace Require AsmLayout AsmLex AsmLexCase.
+From Lace Require AsmLayout AsmLex AsmLexCase AsmAccept AsmMeaning.
 Open Scope N_scope.
 
 (** Every word the assembler emits for a statement (operands as the parser delivers them)
@@ -60,6 +60,51 @@ Theorem C01_image : forall feat sym0 src im sym1,
             (a_ast a) (i_words im).
 Proof. exact assemble_image. Qed.
 Print Assumptions C01_image.
+
+(** What the text MEANS (AsmMeaning.v).  [AsmMeaning.means] is the table of the assembly language as the ISA manual writes
+    it (ADD DR, SR1, SR2 | ADD DR, SR1, imm5 | LDR DR, BaseR, offset6 | ST SR, LABEL | ...; lace's PUSH / POP / CALL / RETS):
+    mnemonic, operands IN THE ORDER WRITTEN, and the instruction they denote - an immediate is the literal's own value, [o] stands
+    for the PC-relative field.  Whatever statement the parser builds from a mnemonic and the tokens behind it, the instruction
+    that statement stands for is the one the table gives for those tokens. *)
+Theorem C01_statement_meaning : forall sym line k toks te n s p', Forall AsmWf.tok_wf toks ->
+  parse_instr sym line k (toks, te) n = Ok (s, p') ->
+  exists ops, AsmMeaning.opvals (firstn (length (AsmAccept.shape k)) toks) = Some ops /\
+              forall o, AsmMeaning.means k ops o = Some (instr_of s o).
+Proof. exact AsmMeaning.instr_meaning. Qed.
+Print Assumptions C01_statement_meaning.
+
+(** END TO END, for every source the assembler accepts: the i-th word of the image decodes, by the ISA's decoder, to the
+    instruction the table gives for a mnemonic token of the source (the i-th statement carries that token's offset) and the
+    operand tokens written behind it - destination, sources, base and offset where the manual puts them - with the
+    PC-relative field [bit_offs] computes for the statement; trap aliases are their vectors; data words are the values written. *)
+Theorem C01_program_meaning : forall feat sym0 src toks im sym1,
+  preprocess feat (S (length src)) src 0 nil = Ok toks ->
+  assemble feat sym0 src = (Ok im, sym1) ->
+  exists a, assemble_air feat sym0 src = (Ok a, sym1) /\
+    Forall2 (fun ln w =>
+      exists pre t rest, toks = pre ++ t :: rest /\ al_offs ln = toffs t /\
+        match tk t with
+        | KInstr k => exists ops o, AsmMeaning.opvals (firstn (length (AsmAccept.shape k)) rest) = Some ops /\
+                                    AsmMeaning.means k ops o = Some (decode w) /\
+                                    match pcrel_of (al_stmt ln) with
+                                    | Some (l, nb) => bit_offs (al_line ln) l nb = Ok o
+                                    | None => True
+                                    end
+        | KTrap k => exists ops, AsmMeaning.opvals (firstn (length (AsmAccept.trap_shape k)) rest) = Some ops /\
+                                 AsmMeaning.trap_means k ops = Some (decode w)
+        | KByte v => w = v
+        | _ => False
+        end) (a_ast a) (i_words im).
+Proof. exact AsmMeaning.program_meaning. Qed.
+Print Assumptions C01_program_meaning.
+
+(** Non-vacuity of the table: `add r1 r2 #-3` is ADD DR=1 SR1=2 imm=-3; `str r1 r2 #5` is STR SR=1 BaseR=2 off=5; operands in
+    another order denote nothing. *)
+Example C01_meaning_nonvacuous :
+  AsmMeaning.means IAdd (AsmMeaning.VReg 1 :: AsmMeaning.VReg 2 :: AsmMeaning.VLit 65533 :: nil) 0 = Some (ADDi 1 2 65533) /\
+  AsmMeaning.means IStr (AsmMeaning.VReg 1 :: AsmMeaning.VReg 2 :: AsmMeaning.VLit 5 :: nil) 0 = Some (STR 1 2 5) /\
+  AsmMeaning.means IAdd (AsmMeaning.VReg 1 :: AsmMeaning.VLit 2 :: AsmMeaning.VReg 3 :: nil) 0 = None.
+Proof. pose proof AsmMeaning.means_examples as H. tauto. Qed.
 
 (** Non-vacuity: `ldr r0 r1 #-1` (offset kept as the byte xFF) emits x607F = LDR R0,R1,#-1, and
     `br` to a label three statements back emits x0FFC. *)
